@@ -263,6 +263,7 @@ def r6(ctx):
 
 
 def run(ctx):
+    scan_rule(ctx, "C08")
     r1(ctx)
     r2(ctx)
     r3(ctx)
